@@ -152,12 +152,12 @@ Proof.
   assert (Hss : sqrt (1 - y ^ 2) * sqrt (1 - y ^ 2) = 1 - y ^ 2) by (apply sqrt_sq_eq; lra).
   auto_derive.
   - split; [ | split; [ | exact I ] ];
-    replace (1 - y * (y * 1)) with (1 - y ^ 2) by ring; lra.
-  - replace (1 - y * (y * 1)) with (1 - y ^ 2) by ring.
+    replace (1 + - (y * (y * 1))) with (1 - y ^ 2) by ring; lra.
+  - replace (1 + - (y * (y * 1))) with (1 - y ^ 2) by ring.
     set (s := sqrt (1 - y ^ 2)) in *.
     replace (1 - y ^ 2) with (s * s) by exact Hss.
     field_simplify; [ | lra | lra ].
-    Show.
+    replace (2 * s ^ 2 + 2 * y ^ 2) with 2 by nra. field. lra.
 Qed.
 
 Theorem asig_ildj_log_deriv : forall y, -1 < y < 1 ->
